@@ -41,6 +41,11 @@ func FirstDiff(a, b []byte) string {
 	if ea != nil || eb != nil {
 		return "(unparseable)"
 	}
+	if da, db := va.Get("doc"), vb.Get("doc"); da != nil && db != nil {
+		if p := firstDiff(da, db, "/doc"); p != "" {
+			return p
+		}
+	}
 	if p := firstDiff(va, vb, ""); p != "" {
 		return p
 	}
